@@ -64,6 +64,11 @@ class StreamBoard(Board):
                 r.cpsr.it = ((p * 37) & 0xF0) | [0x4, 0xC, 0x2, 0xA, 0x6, 0xE, 0x1, 0x3, 0x5, 0x7, 0x9, 0xB, 0xD, 0xF][p % 14]
             else:
                 r.cpsr.it = force['it']
+        if force is not None and force.get('ptr_regs'):
+            # every general-purpose register (and the current SP) reloaded with a pointer from the list: a pure function of the position
+            pl = force['ptr_regs']
+            for i in range(14):
+                r.set(i, pl[(pos * 7 + i * 5 + (pos >> 3)) % len(pl)])
         if force is not None and force.get('edge_regs') and (pos * 5 + force['edge_regs']) % 3:
             # operand values at the edges of the 32-bit range (a pure function of the position in the word list)
             for i in range(13):
